@@ -745,6 +745,55 @@ type counters struct {
 	trees, evals, nontrivial, skippedIn, interrupted, unstable, failing int64
 }
 
+// doTree checks one named tree in every position of ctxs.
+func doTree(res *common.Result, seen *hashSet, report func(common.Violation), root *Node, names []string, spName string, ctxs []*ctxDef, seq int64, cn *counters) {
+	for ci, cx := range ctxs {
+		r := evalCase(root, names, cx)
+		if r.skipped {
+			cn.skippedIn++
+			continue
+		}
+		cn.evals++
+		if r.interrupted {
+			cn.interrupted++
+		}
+		if r.unstable {
+			cn.unstable++
+		}
+		if r.nontrivial {
+			if seen.add(cx.ID + "\x00" + render(root, false, cx.Colon)) {
+				cn.nontrivial++
+			}
+			if seq%40009 == 11 && ci == int(seq/40009)%len(ctxs) {
+				res.Sample(map[string]interface{}{"space": spName, "position": cx.ID, "tree": root.sexpr(),
+					"minimal": cx.Pre + render(root, false, cx.Colon) + cx.Post, "explicit": cx.Pre + render(root, true, cx.Colon) + cx.Post})
+			}
+		}
+		if r.class != "" {
+			cn.failing++
+			mt, mcx, mr := minimise(root, cx, family(r.class))
+			report(common.Violation{
+				Class:  finalClass(mr.class, mt, mcx),
+				Case:   mcx.Pre + render(mt, false, mcx.Colon) + mcx.Post,
+				Detail: mr.detail,
+				Replay: treeReplay{Kind: "tree", Ctx: mcx.ID, Tree: mt},
+			})
+		}
+	}
+}
+
+func (cn *counters) flush(res *common.Result, spName string) {
+	res.Add("trees", cn.trees)
+	res.Add("trees:"+spName, cn.trees)
+	res.Add("evaluations", cn.evals)
+	res.Add("evaluations:"+spName, cn.evals)
+	res.Add("nontrivial", cn.nontrivial)
+	res.Add("skipped_for_in_head", cn.skippedIn)
+	res.Add("fuel_exhausted", cn.interrupted)
+	res.Add("address_dependent_values_not_compared", cn.unstable)
+	res.Add("failing_cases_before_minimisation", cn.failing)
+}
+
 func run(c *common.Ctx) *common.Result {
 	res := common.NewResult()
 	seen := newHashSet()
@@ -762,6 +811,7 @@ func run(c *common.Ctx) *common.Result {
 	}
 
 	runLiterals(c, res, seen, report)
+	runTight(c, res, seen, report)
 
 	ps := plans(c.Thorough())
 	type batch struct {
@@ -819,50 +869,10 @@ func run(c *common.Ctx) *common.Result {
 					if int64(n) > maxNodes {
 						maxNodes = int64(n)
 					}
-					for ci, cx := range p.ctxs {
-						r := evalCase(root, names, cx)
-						if r.skipped {
-							cn.skippedIn++
-							continue
-						}
-						cn.evals++
-						if r.interrupted {
-							cn.interrupted++
-						}
-						if r.unstable {
-							cn.unstable++
-						}
-						if r.nontrivial {
-							if seen.add(cx.ID + "\x00" + render(root, false, cx.Colon)) {
-								cn.nontrivial++
-							}
-							if seq%40009 == 11 && ci == int(seq/40009)%len(p.ctxs) {
-								res.Sample(map[string]interface{}{"space": p.sp.name, "position": cx.ID, "tree": root.sexpr(),
-									"minimal": cx.Pre + render(root, false, cx.Colon) + cx.Post, "explicit": cx.Pre + render(root, true, cx.Colon) + cx.Post})
-							}
-						}
-						if r.class != "" {
-							cn.failing++
-							mt, mcx, mr := minimise(root, cx, family(r.class))
-							report(common.Violation{
-								Class:  finalClass(mr.class, mt, mcx),
-								Case:   mcx.Pre + render(mt, false, mcx.Colon) + mcx.Post,
-								Detail: mr.detail,
-								Replay: treeReplay{Kind: "tree", Ctx: mcx.ID, Tree: mt},
-							})
-						}
-					}
+					doTree(res, seen, report, root, names, p.sp.name, p.ctxs, seq, &cn)
 				}
 			}
-			res.Add("trees", cn.trees)
-			res.Add("trees:"+p.sp.name, cn.trees)
-			res.Add("evaluations", cn.evals)
-			res.Add("evaluations:"+p.sp.name, cn.evals)
-			res.Add("nontrivial", cn.nontrivial)
-			res.Add("skipped_for_in_head", cn.skippedIn)
-			res.Add("fuel_exhausted", cn.interrupted)
-			res.Add("address_dependent_values_not_compared", cn.unstable)
-			res.Add("failing_cases_before_minimisation", cn.failing)
+			cn.flush(res, p.sp.name)
 			res.Max("depth", maxDepth)
 			res.Max("operator_nodes", maxNodes)
 		})
@@ -938,6 +948,7 @@ func coverage(c *common.Ctx, r *common.Result) map[string]interface{} {
 		}
 		spaces = append(spaces, fmt.Sprintf("%s: %d trees x positions %v = %d evaluations", p.sp.name, r.Counts["trees:"+p.sp.name], ids, r.Counts["evaluations:"+p.sp.name]))
 	}
+	spaces = append(spaces, fmt.Sprintf("%s: %d literals x 18 operators x operands/shapes = %d trees x %d positions = %d evaluations", tightName, len(tightLiterals), r.Counts["trees:"+tightName], len(tightCtxs(c.Thorough())), r.Counts["evaluations:"+tightName]))
 	spaces = append(spaces, fmt.Sprintf("literals: %d number spellings (all %d strings of length<=5 over %q classified, plus boundaries), %d string spellings = %d evaluations",
 		r.Counts["number_spellings"], r.Counts["literal_strings_scanned"], numAlphabet, r.Counts["string_spellings"], r.Counts["evaluations:literals"]))
 	cov["spaces"] = spaces
